@@ -44,53 +44,81 @@ def identity_bits(eng: Engine, ctx: Ctx, rid: str) -> int:
         ctx.bad(rid, f.qualname, "return", expected="an identity string", found="no return statement", **eng.loc(f, f.node))
         return 1
     seen_plain = seen_igs = False
+    from ..symeval import dnf_and
+
+    def payload_len_literal(c, pol):
+        """(kind, k): literal over len(payload): ('ge', k) means len >= k, ('le', k) means len <= k; None if not a length literal."""
+        from ..raises import _len_bound_literal
+
+        lo = _len_bound_literal(c, pol, want_upper=False)
+        if lo and lo[0][0] in ("field", "fieldv") and lo[0][1] == payload_field:
+            return ("ge", lo[1])
+        hi = _len_bound_literal(c, pol, want_upper=True)
+        if hi and hi[0][0] in ("field", "fieldv") and hi[0][1] == payload_field:
+            return ("le", hi[1])
+        return None
+
+    need_sub = shi // 8 + (1 if shi % 8 else 0)  # bytes needed to read the sub-type bits
     for r in rets:
-        for g, leaf in leaves(r.term, r.guards):
-            n += 1
+        for g0, leaf in leaves(r.term, r.guards):
             leaf = strip_str(leaf)
             loc = eng.loc(f, r.node)
-            # which case does the guard select?
-            igs_guard = None
-            for c, pol in g:
-                if c[0] == "cmp" and c[1] in ("==", "!=") and is_const(c[3]) and isinstance(c[3][1], int):
-                    mv = bvc.to_bv(c[2])
-                    if c[3][1] != fr["igs_msgnum"]:
-                        ctx.bad(rid, f.qualname, show(c), expected=f"message number compared with {fr['igs_msgnum']}", found=str(c[3][1]), **loc)
+            dnf = ((),)
+            for c, pol in g0:
+                dnf = dnf_and(dnf, c, pol)
+            for g in dnf:
+                n += 1
+                # which case does this path select?
+                igs_guard = None
+                len_ge, len_le = 0, None
+                for c, pol in g:
+                    pl = payload_len_literal(c, pol)
+                    if pl:
+                        if pl[0] == "ge":
+                            len_ge = max(len_ge, pl[1])
+                        else:
+                            len_le = pl[1] if len_le is None else min(len_le, pl[1])
                         continue
-                    if not bv_equal(mv, want_mid):
-                        ctx.bad(rid, f.qualname, show(c), expected="comparison on the 12-bit message number " + want_mid.render(bvc.syms),
-                                found=mv.render(bvc.syms) if mv else show(c[2]), **loc)
+                    if c[0] == "cmp" and c[1] in ("==", "!=") and is_const(c[3]) and isinstance(c[3][1], int):
+                        mv = bvc.to_bv(c[2])
+                        if c[3][1] != fr["igs_msgnum"]:
+                            ctx.bad(rid, f.qualname, show(c), expected=f"message number compared with {fr['igs_msgnum']}", found=str(c[3][1]), **loc)
+                            continue
+                        if not bv_equal(mv, want_mid):
+                            ctx.bad(rid, f.qualname, show(c), expected="comparison on the 12-bit message number " + want_mid.render(bvc.syms),
+                                    found=mv.render(bvc.syms) if mv else show(c[2]), **loc)
+                            continue
+                        igs_guard = (c[1] == "==") == pol
+                    else:
+                        ctx.bad(rid, f.qualname, show(c)[:100], expected="identity depends only on the message number test (and on the sub-type byte being present)", found="extra condition on the identity path", **loc)
+                if leaf[0] == "fstr":
+                    parts = leaf[1]
+                    ok = (len(parts) == 3 and parts[0][0] == "fmt" and is_const(parts[1]) and parts[1][1] == "_" and parts[2][0] == "fmt")
+                    if not ok:
+                        ctx.bad(rid, f.qualname, show(leaf)[:120], expected="f'{msgnum}_{subtype:03d}'", found="different template", **loc)
                         continue
-                    igs_guard = (c[1] == "==") == pol
+                    a = bvc.to_bv(strip_str(parts[0][1]))
+                    b = bvc.to_bv(parts[2][1])
+                    ctx.check(bv_equal(a, want_mid) and parts[0][2] in ("", "d") and parts[0][3] == -1, rid, f.qualname, "igs message-number part",
+                              expected=want_mid.render(bvc.syms), found=(a.render(bvc.syms) if a else show(parts[0][1])) + f" spec={parts[0][2]!r}", **loc)
+                    ctx.check(bv_equal(b, want_sub), rid, f.qualname, "igs sub-type bits",
+                              expected=f"payload bits {slo}..{shi - 1}: " + want_sub.render(bvc.syms), found=b.render(bvc.syms) if b else show(parts[2][1]), **loc)
+                    ctx.check(parts[2][2] == "03d" and parts[2][3] == -1, rid, f.qualname, "igs sub-type format", expected="':03d'", found=repr(parts[2][2]), **loc)
+                    ctx.check(igs_guard is True, rid, f.qualname, "igs suffix guard", expected=f"suffix only when message number == {fr['igs_msgnum']}",
+                              found=guard_text(g), **loc)
+                    seen_igs = True
                 else:
-                    ctx.bad(rid, f.qualname, show(c)[:100], expected="identity depends only on the message number test", found="extra condition on the identity path", **loc)
-            if leaf[0] == "fstr":
-                parts = leaf[1]
-                ok = (len(parts) == 3 and parts[0][0] == "fmt" and is_const(parts[1]) and parts[1][1] == "_" and parts[2][0] == "fmt")
-                if not ok:
-                    ctx.bad(rid, f.qualname, show(leaf)[:120], expected="f'{msgnum}_{subtype:03d}'", found="different template", **loc)
-                    continue
-                a = bvc.to_bv(strip_str(parts[0][1]))
-                b = bvc.to_bv(parts[2][1])
-                ctx.check(bv_equal(a, want_mid) and parts[0][2] in ("", "d") and parts[0][3] == -1, rid, f.qualname, "igs message-number part",
-                          expected=want_mid.render(bvc.syms), found=(a.render(bvc.syms) if a else show(parts[0][1])) + f" spec={parts[0][2]!r}", **loc)
-                ctx.check(bv_equal(b, want_sub), rid, f.qualname, "igs sub-type bits",
-                          expected=f"payload bits {slo}..{shi - 1}: " + want_sub.render(bvc.syms), found=b.render(bvc.syms) if b else show(parts[2][1]), **loc)
-                ctx.check(parts[2][2] == "03d" and parts[2][3] == -1, rid, f.qualname, "igs sub-type format", expected="':03d'", found=repr(parts[2][2]), **loc)
-                ctx.check(igs_guard is True, rid, f.qualname, "igs suffix guard", expected=f"suffix only when message number == {fr['igs_msgnum']}",
-                          found=guard_text(g), **loc)
-                seen_igs = True
-            else:
-                a = bvc.to_bv(leaf)
-                if a is None:
-                    ctx.bad(rid, f.qualname, show(leaf)[:120], expected="decimal string of the 12-bit message number", found="unrecognised identity expression", **loc)
-                    continue
-                ctx.check(bv_equal(a, want_mid), rid, f.qualname, "message-number bits",
-                          expected=f"payload bits {lo}..{hi - 1}: " + want_mid.render(bvc.syms), found=a.render(bvc.syms), **loc)
-                ctx.check(igs_guard is not True, rid, f.qualname, "plain identity guard", expected=f"no suffix unless message number == {fr['igs_msgnum']}",
-                          found=guard_text(g), **loc)
-                # the value must be converted with str()
-                seen_plain = True
+                    a = bvc.to_bv(leaf)
+                    if a is None:
+                        ctx.bad(rid, f.qualname, show(leaf)[:120], expected="decimal string of the 12-bit message number", found="unrecognised identity expression", **loc)
+                        continue
+                    ctx.check(bv_equal(a, want_mid), rid, f.qualname, "message-number bits",
+                              expected=f"payload bits {lo}..{hi - 1}: " + want_mid.render(bvc.syms), found=a.render(bvc.syms), **loc)
+                    # a plain identity for message number 4076 is admissible only when the sub-type byte does not exist
+                    okplain = igs_guard is not True or (len_le is not None and len_le < need_sub)
+                    ctx.check(okplain, rid, f.qualname, "plain identity guard", expected=f"no suffix unless message number == {fr['igs_msgnum']} (and the payload has the sub-type byte)",
+                              found=guard_text(g), **loc)
+                    seen_plain = True
     ctx.check(seen_plain and seen_igs, rid, f.qualname, "both identity forms present", expected="plain and 4076_xxx forms", found=f"plain={seen_plain} igs={seen_igs}", **eng.loc(f, f.node))
     # return type: every return is a str (str(...) call or f-string)
     for r in rets:
@@ -726,6 +754,8 @@ def read_returns(eng: Engine, ctx: Ctx, rid: str, model: ReaderModel | None = No
         n += 1
         good = e.handler is not None and "EOFError" in norm(e.handler.type or ast.Name(id="")) and e.term == ("const", (None, None))
         ctx.check(good, rid, f.qualname, norm(e.node), expected="the only in-loop return is `return (None, None)` in the EOFError handler", found=f"{show(e.term)[:40]} in handler {norm(e.handler.type) if e.handler is not None and e.handler.type is not None else '-'}", **eng.loc(f, e.node))
+    eof = [e for e in inloop if e.handler is not None and "EOFError" in norm(e.handler.type or ast.Name(id="")) and e.term == ("const", (None, None))]
+    ctx.check(len(eof) >= 1, rid, f.qualname, "end of data ends the iteration cleanly", expected="`except EOFError: return (None, None)` inside the loop", found=f"{len(eof)} such return(s)", **loc)
     if not post or not m.asm_calls:
         return n
     rv = post[0].term
